@@ -21,6 +21,8 @@ What is assumed about the operating system (the trusted part; each model is list
  * ``rmtree(p, ignore_errors=True)`` never raises; without ignore_errors it may raise OSError.
  * ``mkdtemp`` returns a new, empty directory: different from, and not an ancestor of, every known entry.
  * ``Path.resolve()`` returns another name of the same entry.
+ * ``exists/is_dir/is_file`` are true of known entries; an entry nothing is known about may or may not exist
+   (event ('exists?', path, kind, answer)).
  * no operation fails for reasons outside this model (permissions, full disk, concurrent processes).
 """
 import os
@@ -267,10 +269,23 @@ def m_fs_resolve(interp, args, kwargs):
 
 @models.model(pathlib_model.fs_exists)
 def m_fs_exists(interp, args, kwargs):
+    """exists / is_dir / is_file: true of the entries known to exist; an entry nothing is known about may or may
+    not exist (the answer is then recorded: asking again gives the same answer)"""
     path, kind = args
     f = fs(interp)
+    s = path._s
     entries = {'any': f['dirs'] + f['files'], 'dir': f['dirs'], 'file': f['files']}[kind]
-    return _member(interp, path._s, entries)
+    if interp.branch(_member(interp, s, entries)):
+        return True
+    if interp.branch(_member(interp, s, f['dirs'] + f['files'] + f.setdefault('absent', []))):
+        return False
+    if interp.st.choose(2) == 1:
+        (declare_dir if kind == 'dir' else declare_file)(interp, s)
+        interp.st.emit('exists?', s, kind, True)
+        return True
+    f['absent'].append(s)
+    interp.st.emit('exists?', s, kind, False)
+    return False
 
 
 # ============================================================================ os / shutil / tempfile
